@@ -73,12 +73,13 @@ type FakeProxy struct {
 	calls []ListCall
 
 	// Hooks; return true if the hook wrote the answer itself.
-	ListHook   func(w http.ResponseWriter, r *http.Request) bool
-	FetchHook  func(q *FPRequest, w http.ResponseWriter, r *http.Request) bool
-	UploadHook func(q *FPRequest, w http.ResponseWriter, r *http.Request) bool
+	// (set through SetListHook etc.: handlers of earlier requests may still be running when a test installs new hooks)
+	listHook   func(w http.ResponseWriter, r *http.Request) bool
+	fetchHook  func(q *FPRequest, w http.ResponseWriter, r *http.Request) bool
+	uploadHook func(q *FPRequest, w http.ResponseWriter, r *http.Request) bool
 	// OnUploadChunk sees upload body bytes as they arrive (for the streaming check).
-	OnUploadBytes func(q *FPRequest, b []byte)
-	IdleReply     time.Duration // how long an empty poll is held
+	onUploadBytes func(q *FPRequest, b []byte)
+	IdleReply     time.Duration // how long an empty poll is held (set before the agent is started)
 	Strays        int           // requests from anything but the harness's own agent (ignored)
 }
 
@@ -95,6 +96,47 @@ func NewFakeProxy() *FakeProxy {
 }
 
 func (fp *FakeProxy) Close() { fp.srv.Close() }
+
+type fpHooks struct {
+	list   func(w http.ResponseWriter, r *http.Request) bool
+	fetch  func(q *FPRequest, w http.ResponseWriter, r *http.Request) bool
+	upload func(q *FPRequest, w http.ResponseWriter, r *http.Request) bool
+	tap    func(q *FPRequest, b []byte)
+}
+
+func (fp *FakeProxy) hooks() fpHooks {
+	fp.mu.Lock()
+	defer fp.mu.Unlock()
+	return fpHooks{fp.listHook, fp.fetchHook, fp.uploadHook, fp.onUploadBytes}
+}
+
+// SetListHook installs the hook for pending-list calls (nil removes it).
+func (fp *FakeProxy) SetListHook(h func(w http.ResponseWriter, r *http.Request) bool) {
+	fp.mu.Lock()
+	fp.listHook = h
+	fp.mu.Unlock()
+}
+
+// SetFetchHook installs the hook for request fetches.
+func (fp *FakeProxy) SetFetchHook(h func(q *FPRequest, w http.ResponseWriter, r *http.Request) bool) {
+	fp.mu.Lock()
+	fp.fetchHook = h
+	fp.mu.Unlock()
+}
+
+// SetUploadHook installs the hook for response uploads.
+func (fp *FakeProxy) SetUploadHook(h func(q *FPRequest, w http.ResponseWriter, r *http.Request) bool) {
+	fp.mu.Lock()
+	fp.uploadHook = h
+	fp.mu.Unlock()
+}
+
+// SetOnUploadBytes installs a tap on the bytes of response uploads as they arrive.
+func (fp *FakeProxy) SetOnUploadBytes(h func(q *FPRequest, b []byte)) {
+	fp.mu.Lock()
+	fp.onUploadBytes = h
+	fp.mu.Unlock()
+}
 
 // Add registers a request (without listing it).
 func (fp *FakeProxy) Add(id, user, method string, wire []byte) *FPRequest {
@@ -203,7 +245,7 @@ func (fp *FakeProxy) serveList(w http.ResponseWriter, r *http.Request) {
 		fp.calls = append(fp.calls, call)
 		fp.mu.Unlock()
 	}()
-	if fp.ListHook != nil && fp.ListHook(sr, r) {
+	if h := fp.hooks().list; h != nil && h(sr, r) {
 		return
 	}
 	deadline := time.After(fp.IdleReply)
@@ -242,7 +284,7 @@ func (fp *FakeProxy) serveFetch(w http.ResponseWriter, r *http.Request) {
 	q.mu.Lock()
 	q.Fetches = append(q.Fetches, time.Now())
 	q.mu.Unlock()
-	if fp.FetchHook != nil && fp.FetchHook(q, w, r) {
+	if h := fp.hooks().fetch; h != nil && h(q, w, r) {
 		return
 	}
 	w.Header().Set(HdrStartTime, time.Now().Format(time.RFC3339Nano))
@@ -272,13 +314,13 @@ func (fp *FakeProxy) serveUpload(w http.ResponseWriter, r *http.Request) {
 		http.NotFound(w, r)
 		return
 	}
-	if fp.UploadHook != nil && fp.UploadHook(q, w, r) {
+	if h := fp.hooks().upload; h != nil && h(q, w, r) {
 		return
 	}
 	up := &Upload{At: time.Now()}
 	var body io.Reader = r.Body
-	if fp.OnUploadBytes != nil {
-		body = &tapReader{r.Body, func(b []byte) { fp.OnUploadBytes(q, b) }}
+	if tap := fp.hooks().tap; tap != nil {
+		body = &tapReader{r.Body, func(b []byte) { tap(q, b) }}
 	}
 	up.Raw, up.ReadErr = io.ReadAll(body)
 	up.ParseUpload(q.Method)
